@@ -14,6 +14,8 @@ Construct classes (tag -> what the pinned tree does with it, see known_findings.
   gcounter    call of a global closure that mutates its captured variable         balanced
   enum        non-recursive variant constructed and matched                       balanced
   leafbox     one-cell boxed variant bound and dropped                            balanced
+  embed       let-bound value of a recursive variant type (payload elements of 1..3 words before / between / after the
+              recursive references) embedded into other constructors in nested blocks, never matched or passed     balanced
   letcap      capturing closure bound by `let`                                    K1 leaks a closure per execution
   fnarg       function value passed as an argument                                K2 leaks closure + heap wrapper / refcount drift
   fnret       function value returned from a function (also inside a tuple)       K3
@@ -24,7 +26,7 @@ import sys, os
 sys.path.insert(0, os.path.dirname(os.path.abspath(__file__)))
 from coregen import Rng
 
-BALANCED_TAGS = ["local0", "direct", "pipe", "gcall", "gcounter", "enum", "leafbox"]
+BALANCED_TAGS = ["local0", "direct", "pipe", "gcall", "gcounter", "enum", "leafbox", "embed"]
 LEAKY_TAGS = ["letcap", "fnarg", "fnret", "box", "sched"]
 CONSTS = ["0.5", "1.0", "2.0", "3.0", "0.25", "1.5", "4.0", "10.0"]
 
@@ -49,26 +51,29 @@ PRELUDE = {
     "etest": "fn etest(e){\n  match e {\n    One(v) => v*1.0,\n    Two(v) => v*2.0\n  }\n}\n",
     "rep": "fn rep(n, f:(float)->float){\n  if (n > 0.0) {\n    rep(n - 1.0, f)\n  } else {\n    f(1.0)\n  }\n}\n",
     "compose": "fn compose(f:(float)->float, g:(float)->float){\n  |x| { f(g(x)) }\n}\n",
-    "tl": "fn tl(l: List) -> List {\n  match l {\n    Nil => Nil,\n    Cons(h, t) => t\n  }\n}\n",
+    # (known defect C12-X2: variables bound by a match arm stay visible after the match and shadow functions — keep
+    #  every pattern variable of the generated programs distinct from every function name)
+    "tailof": "fn tailof(l: List) -> List {\n  match l {\n    Nil => Nil,\n    Cons(tlh, tlt) => tlt\n  }\n}\n",
     "gacc": "let gacc = 0.0\n",
     "bump": "fn bump(){\n  gacc = gacc + 1.0\n}\n",
 }
 PRELUDE_ORDER = ["List", "Tree", "E", "Option", "unwrap_or", "gacc", "hof", "hof2", "twice", "named", "mk", "mk2", "mkpair", "mkcounter", "sum", "len",
-                 "mklist", "tsum", "etest", "bump", "rep", "compose", "tl"]
-DEPS = {"sum": ["List"], "len": ["List"], "mklist": ["List"], "tsum": ["Tree"], "etest": ["E"], "bump": ["gacc"], "tl": ["List"], "unwrap_or": ["Option"]}
+                 "mklist", "tsum", "etest", "bump", "rep", "compose", "tailof"]
+DEPS = {"sum": ["List"], "len": ["List"], "mklist": ["List"], "tsum": ["Tree"], "etest": ["E"], "bump": ["gacc"], "tailof": ["List"], "unwrap_or": ["Option"]}
 
 
 class Unit:
     """one construct instance: `lines` (statements, may mention {up} = a float variable in scope and {arg}) and the
     name of the float variable holding its result"""
 
-    def __init__(self, tag, variant, lines, res, needs=(), globals_=(), wrappers=(), sched=False, extra=()):
+    def __init__(self, tag, variant, lines, res, needs=(), globals_=(), wrappers=(), sched=False, extra=(), decls=()):
         self.tag, self.variant, self.lines, self.res = tag, variant, list(lines), res
         self.needs, self.globals, self.wrappers, self.sched = list(needs), list(globals_), list(wrappers), sched
         self.extra = list(extra)
+        self.decls = list(decls)
 
     def copy(self, **kw):
-        u = Unit(self.tag, self.variant, self.lines, self.res, self.needs, self.globals, self.wrappers, self.sched, self.extra)
+        u = Unit(self.tag, self.variant, self.lines, self.res, self.needs, self.globals, self.wrappers, self.sched, self.extra, self.decls)
         for k, v in kw.items():
             setattr(u, k, v)
         return u
@@ -126,6 +131,10 @@ def make_unit(r, n, tags):
         return Unit(tag, ctor, [f"let {v} = etest({ctor}({arg}))"], v, needs=["etest"])
     if tag == "leafbox":
         return Unit(tag, "unused", [f"let l{n} = Cons({arg}, Nil)", f"let {v} = {up}"], v, needs=["List"])
+    if tag == "embed":
+        return make_embed_unit(r, n, tag, up, arg, v)
+    if tag == "box" and r.chance(2, 5):
+        return make_embed_unit(r, n, tag, up, arg, v)
     if tag == "letcap":
         var = r.pick(["call", "nocall", "mut", "two-upvalues", "nested", "tuple-local", "counter"])
         if var == "tuple-local":
@@ -176,7 +185,7 @@ def make_unit(r, n, tags):
     if tag == "box":
         var = r.pick(["sum1", "sum2", "two-unused", "match", "ret", "shared", "tree", "global", "tail", "captured", "global-replace"])
         if var == "tail":
-            return Unit(tag, var, [f"let l{n} = Cons({arg}, Cons({c1}, Cons({c2}, Nil)))", f"let {v} = sum(tl(l{n}))"], v, needs=["sum", "tl"])
+            return Unit(tag, var, [f"let l{n} = Cons({arg}, Cons({c1}, Cons({c2}, Nil)))", f"let {v} = sum(tailof(l{n}))"], v, needs=["sum", "tailof"])
         if var == "captured":
             return Unit(tag, var, [f"let l{n} = Cons({arg}, Nil)", f"let f{n} = | | {{ sum(l{n}) }}", f"let {v} = f{n}()"], v, needs=["sum"],
                         extra=["letcap"])
@@ -189,7 +198,7 @@ def make_unit(r, n, tags):
         if var == "two-unused":
             return Unit(tag, var, [f"let l{n} = Cons({arg}, Cons({c1}, Nil))", f"let {v} = {up}"], v, needs=["List"])
         if var == "match":
-            return Unit(tag, var, [f"let l{n} = Cons({arg}, Nil)", f"let {v} = match l{n} {{", "  Nil => 0.0,", "  Cons(hd, tl) => hd", "}"], v,
+            return Unit(tag, var, [f"let l{n} = Cons({arg}, Nil)", f"let {v} = match l{n} {{", "  Nil => 0.0,", f"  Cons(hd{n}, rest{n}) => hd{n}", "}"], v,
                         needs=["List"])
         if var == "ret":
             return Unit(tag, var, [f"let l{n} = mklist({arg})", f"let {v} = len(l{n})"], v, needs=["mklist", "len"])
@@ -207,6 +216,73 @@ def make_unit(r, n, tags):
             return Unit(tag, var, ["bump@(now + 1.0)", f"let {v} = gacc"], v, needs=["bump"], sched=True)
         return Unit(tag, var, [f"let t{n} = | | {{ {up} * {c1} }}", f"t{n}@(now + {r.pick(['2.0', '3.0', '5.0'])})", f"let {v} = {up}"], v, sched=True)
     raise ValueError(tag)
+
+
+# ---- recursive variant types with multi-word payload elements ------------------------------------------------------
+ELEM_KINDS = ["f", "p2", "p3", "r2"]      # float | (float,float) | ((float,float),float) | {x:float, y:float}
+
+
+def rec_type(r, n):
+    """random `type rec T{n} = L{n} | N{n}(elems…)`: 1..2 recursive references, 1..3 data elements of 1..3 words each,
+    in random order; returns (decl text incl. a recursive sum function, elems)"""
+    elems = ["R"] * (1 + r.below(2)) + [r.pick(ELEM_KINDS) for _ in range(1 + r.below(3))]
+    # shuffle (Fisher-Yates on the splitmix stream)
+    for i in range(len(elems) - 1, 0, -1):
+        j = r.below(i + 1)
+        elems[i], elems[j] = elems[j], elems[i]
+    if all(e in ("R", "f") for e in elems) and r.chance(5, 6):
+        # make sure most types have an element wider than one word
+        k = [i for i, e in enumerate(elems) if e == "f"]
+        elems[k[0]] = r.pick(["p2", "p3", "r2"])
+    ty = {"f": "float", "p2": "(float, float)", "p3": "((float, float), float)", "r2": "{x:float, y:float}", "R": f"T{n}"}
+    decl = f"type rec T{n} = L{n} | N{n}(" + ", ".join(ty[e] for e in elems) + ")\n"
+    reads = []
+    for i, e in enumerate(elems):
+        reads.append({"f": f"e{i}", "p2": f"e{i}.0 + e{i}.1", "p3": f"e{i}.1", "r2": f"e{i}.x + e{i}.y", "R": f"sum{n}(e{i})"}[e])
+    decl += (f"fn sum{n}(v: T{n}) -> float {{\n  match v {{\n    L{n} => 0.0,\n    N{n}(" + ", ".join(f"e{i}" for i in range(len(elems)))
+             + ") => " + " + ".join(reads) + "\n  }\n}\n")
+    return decl, elems
+
+
+def rec_value(r, n, elems, recs):
+    """constructor application; `recs` supplies the expressions for the recursive positions"""
+    it = iter(recs)
+    lit = lambda: r.pick(CONSTS)
+    args = []
+    for e in elems:
+        args.append({"f": lambda: lit(), "p2": lambda: f"({lit()}, {lit()})", "p3": lambda: f"(({lit()}, {lit()}), {lit()})",
+                     "r2": lambda: f"{{x = {lit()}, y = {lit()}}}", "R": lambda: next(it)}[e]())
+    return f"N{n}(" + ", ".join(args) + ")"
+
+
+def make_embed_unit(r, n, tag, up, arg, v):
+    decl, elems = rec_type(r, n)
+    nrec = elems.count("R")
+    leaf = f"L{n}"
+    s0 = rec_value(r, n, elems, [leaf] * nrec)
+    emb = lambda x: rec_value(r, n, elems, [x if (i == 0 or r.chance(1, 2)) else leaf for i in range(nrec)])
+    if tag == "embed":
+        var = r.pick(["once", "once", "twice", "nested", "deep-original"])
+    else:
+        var = r.pick(["read-after", "read-after", "read-before-and-after", "read-inner-and-after", "pass-after"])
+    lines = [f"let s{n} = {s0}"]
+    if var == "deep-original":
+        lines = [f"let s0{n} = {s0}", f"let s{n} = {emb(f's0{n}')}"]
+    if var == "read-before-and-after":
+        lines.append(f"let r0{n} = sum{n}(s{n})")
+    if var in ("nested",):
+        lines += [f"let a{n} = {{", f"  let big{n} = {emb(f's{n}')}", f"  let b{n} = {{", f"    let bigger{n} = {emb(f'big{n}')}", f"    {up}", "  }", f"  b{n} + 1.0", "}"]
+    elif var == "read-inner-and-after":
+        lines += [f"let a{n} = {{", f"  let big{n} = {emb(f's{n}')}", f"  sum{n}(big{n})", "}"]
+    else:
+        lines += [f"let a{n} = {{", f"  let big{n} = {emb(f's{n}')}", f"  {up}", "}"]
+    if var == "twice":
+        lines += [f"let c{n} = {{", f"  let big2{n} = {emb(f's{n}')}", f"  {arg}", "}"]
+    tail = {"twice": f" + c{n}", "read-before-and-after": f" + r0{n} + sum{n}(s{n})", "read-after": f" + sum{n}(s{n})",
+            "read-inner-and-after": f" + sum{n}(s{n})", "pass-after": f" + sum{n}(s{n}) + sum{n}(s{n})"}.get(var, "")
+    lines.append(f"let {v} = a{n}{tail}")
+    kinds = "".join({"f": "f", "p2": "P", "p3": "Q", "r2": "r", "R": "R"}[e] for e in elems)
+    return Unit(tag, f"{var}:{kinds}", lines, v, decls=[decl])
 
 
 WRAPPERS = ["helper", "if", "lambda", "block"]
@@ -255,6 +331,7 @@ class Prog:
             body.append(f"let z{n} = {res}")
         total = " + ".join(f"z{u.res[1:]}" for u in self.units) or "0.0"
         out = "".join(PRELUDE[k] for k in PRELUDE_ORDER if k in needs)
+        out += "".join(d for u in self.units for d in u.decls)
         out += "".join(g + "\n" for g in glob)
         out += "".join(helpers)
         out += "fn dsp(){\n" + "".join(ind + l + "\n" for l in body) + ind + total + "\n}\n"
@@ -268,6 +345,8 @@ PROFILES = {
     "leaky": (None, 1, 3),
     # everything mixed
     "mixed": (BALANCED_TAGS + LEAKY_TAGS, 2, 5),
+    # recursive variants with multi-word payload elements: embedded / copied / dropped in nested blocks / read again
+    "boxes": (["embed", "embed", "box"], 1, 3),
 }
 
 
